@@ -395,6 +395,21 @@ def shellExecute (rcEmpty : Int) (str : Str) (tables : List (List Str × Nat)) :
       -- res = it->func(argc - dropargs, argv + dropargs, …); return SSHELL_OK;
       some ⟨0, some (k, (r.argc : Int) - drop, args.drop drop)⟩
 
+/-- before `fix: mshell_execute … return ENOENT for a blank line` (and the
+rshell twin): no `argc == 0` test, `argv[0]` is read although nothing was
+stored there — modelled as a fault -/
+def shellExecuteOrig (rcEmpty : Int) (str : Str) (tables : List (List Str × Nat)) : Option Dispatch := do
+  let c ← str.head?
+  if c == NUL then some ⟨rcEmpty, none⟩ else
+  let r ← argvSplit str SSHELL_ARGCMAX
+  let args ← argStrings r.mem r.argv
+  match args with
+  | [] => none                                           -- strcmp(argv[0], …) with argv[0] never written
+  | a0 :: _ =>
+    match findCmdTables a0 tables 0 with
+    | none => some ⟨ENOENT, none⟩
+    | some (k, drop) => some ⟨0, some (k, (r.argc : Int) - drop, args.drop drop)⟩
+
 def mshellExecute (str : Str) (table : List Str) : Option Dispatch :=
   shellExecute ENOENT str [(table, 0)]
 def mshellTablesExecute (str : Str) (tables : List (List Str)) : Option Dispatch :=
@@ -415,6 +430,16 @@ def isSingleDot (path : Cur) : Option Bool :=
     match rest with
     | [] => none
     | nc :: _ => some (nc == SLASH || nc == NUL)
+
+/-- before `fix: path_is_single_dot reads path[1] only after path[0] == '.'`:
+`char nc = *(path + 1);` came first -/
+def isSingleDotOrig (path : Cur) : Option Bool :=
+  match path with
+  | [] => none
+  | c :: rest =>
+    match rest with
+    | [] => none
+    | nc :: _ => some (c == DOT && (nc == SLASH || nc == NUL))
 
 /-- `while (*path == '/' || path_is_single_dot(path)) ++path;` -/
 def skipSlashDots : Cur → Option Cur
